@@ -61,13 +61,13 @@ NOT_YET = {}
 # what later rounds of strengthening added to a property's check (appended to the level text)
 EXTRA = {
  "C16": " Refused datagrams among the concurrent requests (what the server does with their buffers).",
- "C11": " Long options 82 / 61 with option 57; link-level replies on a real interface: the FRAME's payload carries the request's fields.",
+ "C11": " Long options 82 / 61 with option 57; link-level replies on a real interface: the FRAME's payload carries the request's fields. Options no rule reads (Rapid Commit 80, 77, 81, 93, 118, 60) on a third of the datagrams.",
  "C01": " Also on the REAL receive loops: server.Start on loopback UDP sockets, empty / 1-byte / truncated / junk / 60000-byte datagrams each followed by a request that must be answered (Lifecycle.tla: Datagram, ServesWhileOpen; LifecycleTrace under lens C01); clients that remember what they were told come back (conversations); the full chains also run as long-lived processes with liveness probes the chain cannot but answer. Storage-fault histories of the range plugin under a 20 s per-request watchdog (RangeTrace under lens C01: no request waits for ever).",
  "C13": " Start-up order on the real server.Start: a slow (and a slow, failing) plugin setup under a stream of SOLICITs over a real socket - no answer from anything but the configured chain (Lifecycle.tla: Load before Open, NeverServesBare, FailedLoadNeverListened; LifecycleTrace under lens C13); every process first handles 300 requests whose chain ends early. A sixth handler behaviour (nil without stop); the chains again with the server's log level at debug.",
  "C02": " Plus histories with one window of a foreign write transaction on the lease database (transient storage fault), and whole chains (Conv.tla / ConvTrace.tla under lens C02: dynamic clients behind server_id, file, lease_time and option plugins, incl. conversations TLC generated from ConvGen). The configured lease time changes between restarts; requests carry option 51 / 57 or meet a response that already has a lease time. Thorough: TLAPS proof of RangeLease's inductive invariant for every number of clients / addresses / restarts (design only, advisory).",
  "C03": " Plus histories with one window of a foreign write transaction on the lease database: what is handed out after the window must be restored (RangeTrace: fault, nobind, noexp). The promise is what the reply carried. Thorough: TLAPS proof (RangeLeaseProof.tla; design only, advisory).",
  "C10": " Requests carry client identifier options naming other hardware addresses; whole chains (Conv.tla / ConvTrace.tla under lens C10: a listed client gets its address and the chain ends there). The configured name may be a symbolic link: in-place updates through it, then an update published by re-pointing the link.",
- "C14": " The tables run several times over in one process; whole chains (ConvTrace under lens C14). Two Server Identifier options in one message; server_id listed twice.",
+ "C14": " The tables run several times over in one process; whole chains (ConvTrace under lens C14). Two Server Identifier options in one message; server_id listed twice. Well-formed option 82 with link selection and RFC 5107 server identifier override (this / another / a random server), options 80, 118, 93.",
  "C17": " Set-ups in both protocol sections of one process (table-dual), shuffled request lists; whole chains (ConvTrace under lens C17: options of exactly the plugins that ran, default lease time only when none is set). Search lists longer than one option instance.",
  "C08": " Long-running instances (a holder asks again after a neighbour renewed g times, g swept across 256 and, thorough, 65536; 300 clients on one pool), sibling client identifiers on one hardware address, hints with length bytes > 128 and shorter than the pool's. One IAID twice in a message, 33 / 40 / 200 IA_PDs in a message, a third configuration argument.",
  "C09": " Long-running instances (a holder asks again after a neighbour renewed g times, g swept across 256 and, thorough, 65536). One IAID twice in a message.",
